@@ -650,7 +650,7 @@ func runResp(c *corr.Ctx) error {
 		rest := encArray([][]byte{[]byte("PING")})
 		rr.run("big_bulk_exact", append(encArray(args), rest...),
 			respFrame{Kind: "array", Args: hexArgs(args), Rest: hex.EncodeToString(rest)})
-		two := [][]byte{patternBytes(l, 7), []byte("x"), patternBytes(70000, l)}
+		two := [][]byte{[]byte("MSET"), []byte("a"), patternBytes(l, 7), []byte("b"), patternBytes(70000, l)} // two big bulks in one command
 		rr.run("big_bulk_exact", encArray(two), respFrame{Kind: "array", Args: hexArgs(two)})
 	}
 	// big bulks: declared but short
